@@ -28,20 +28,21 @@ def sh(cmd, cwd=None, timeout=3000):
 
 meta = {"property": prop, "source": "independent sub-agent given only the property text", "what_ran": []}
 # 1. confirm in the scratch worktree
-sh("git checkout -- . ", wt)
+sh("git checkout -- . && git clean -fdq -e out -e PROPS.txt", wt)
 rc0, out0 = sh(f"PYTHONPATH={wt} /venv/bin/python out/{n}/demo.py", wt)
 rc, out = sh(f"git apply {patch}", wt)
 if rc != 0:
     print("patch does not apply:", out); sys.exit(2)
 rc1, out1 = sh("/venv/bin/python -m pytest -q -p no:cacheprovider 2>&1 | tail -1", wt)
 rc2, out2 = sh(f"PYTHONPATH={wt} /venv/bin/python out/{n}/demo.py", wt)
-sh("git checkout -- .", wt)
+sh("git checkout -- . && git clean -fdq -e out -e PROPS.txt", wt)
 meta["confirmed"] = {"demo_without_change_exit": rc0, "tests_with_change": out1.strip(), "demo_with_change_exit": rc2}
 ok = rc0 == 0 and "135 passed" in out1 and rc2 != 0
 print("confirmed" if ok else "NOT CONFIRMED", meta["confirmed"])
 if not ok:
     sys.exit(3)
 # 2. run the checks against /repo with the change applied
+sh(f"git -C {REPO} checkout -- . && git -C {REPO} clean -fdq")
 rc, out = sh(f"git -C {REPO} apply {patch}")
 if rc != 0:
     print("patch does not apply to /repo:", out); sys.exit(2)
@@ -64,7 +65,7 @@ try:
                     pass
                 break
 finally:
-    sh(f"git -C {REPO} checkout -- .")
+    sh(f"git -C {REPO} checkout -- . && git -C {REPO} clean -fdq")
     for t in ("tr_lexer", "tr_parser_tables", "tr_generator_tables", "tr_ast", "tr_state", "tr_litspec"):
         sh(f"/venv/bin/python {VERIF}/translator/{t}.py {VERIF}/coq/gen")      # gen/ follows the restored tree again
 meta["checks"] = results
